@@ -30,7 +30,11 @@ let bs = bytes_of_string
 let nn = n_of_int
 
 (* ---- pools *)
-let names = ["a/b"; "t/1"; "dev/x/data"; "q"; "long/topic/name/with/levels"; "s/+"; "w/#"; "a/b/c"; "n1"; "n2"; "n3"]
+(* incl. two names of two CHARACTERS but more than two octets (a short topic name is two OCTETS) *)
+let names = ["a/b"; "t/1"; "dev/x/data"; "q"; "long/topic/name/with/levels"; "s/+"; "w/#"; "a/b/c"; "n1"; "n2"; "n3";
+             "\xc5\xbe\xc5\xbe"; "a\xc3\xa9"]
+(* names that the generated configurations predefine for some or all clients *)
+let pnames = ["p/1"; "p/2"; "p/any"; "pq"; "p/3"]
 let shorts = ["ab"; "xy"; "+a"]
 let clients = ["cl1"; "cl2"]
 
@@ -160,10 +164,10 @@ let gen_history ?(cfgstr : string option) (idx : int) (prof : profile) (oc : out
     let qos = pickw [ (3, 0); (3, 1); (3, 2); (1, 3) ] in
     match rnd 6 with
     | 0 | 1 | 2 -> Subscribe (rnd 5 = 0, nn qos, nn 0, nn (fresh_mid ()), nn 0,
-                              bs (if prof.p_exhaust && coin () then "sub/" ^ string_of_int (rnd 40) else pick names))
+                              bs (if prof.p_exhaust && coin () then "sub/" ^ string_of_int (rnd 40) else if rnd 5 = 0 then pick pnames else pick names))
     | 3 -> Subscribe (false, nn qos, nn 1, nn (fresh_mid ()), nn (pick [1; 2; 3; 4; 5; 6; 9]), [])
     | 4 -> Subscribe (false, nn qos, nn 2, nn (fresh_mid ()), encode_short (bs (pick shorts)), [])
-    | _ -> Subscribe (false, nn qos, nn 0, nn (some_mid ()), nn 0, bs (pick names)) in
+    | _ -> Subscribe (false, nn qos, nn 0, nn (some_mid ()), nn 0, bs (if rnd 4 = 0 then pick pnames else pick names)) in
   let unsubscribe () =
     match rnd 4 with
     | 0 | 1 -> Unsubscribe (nn 0, nn (fresh_mid ()), nn 0, bs (pick names))
@@ -245,7 +249,7 @@ let gen_history ?(cfgstr : string option) (idx : int) (prof : profile) (oc : out
                                  Pubrec (nn 1); Pubcomp (nn 1)]))
     | `Register ->
       let nm = if prof.p_exhaust && rnd 3 > 0 then "r/" ^ string_of_int (rnd 40) else
-          match rnd 6 with 0 -> "s/+" | 1 -> String.make nlen 'n' | _ -> pick names in
+          match rnd 7 with 0 -> "s/+" | 1 -> String.make nlen 'n' | 2 -> pick pnames | _ -> pick names in
       emit_or_skip (ev_sn (Register (nn 0, nn (fresh_mid ()), bs nm)))
     | `ClientPublish -> emit_or_skip (ev_sn (client_publish ()))
     | `Subscribe -> emit_or_skip (ev_sn (subscribe ()))
